@@ -60,7 +60,24 @@ pub struct FaultSink {
     /// that spins (re-sending data after every interruption, say) is cut off with an error
     /// instead of running until a watchdog fires
     pub limit: usize,
+    /// kind of the error a failing call returns (a writer must propagate every kind but
+    /// `Interrupted`, not only the one it was tried with)
+    pub fail_kind: io::ErrorKind,
 }
+
+pub const FAIL_KINDS: &[io::ErrorKind] = &[
+    io::ErrorKind::Other,
+    io::ErrorKind::BrokenPipe,
+    io::ErrorKind::WriteZero,
+    io::ErrorKind::UnexpectedEof,
+    io::ErrorKind::WouldBlock,
+    io::ErrorKind::TimedOut,
+    io::ErrorKind::ConnectionReset,
+    io::ErrorKind::PermissionDenied,
+    io::ErrorKind::OutOfMemory,
+    io::ErrorKind::InvalidData,
+    io::ErrorKind::Unsupported,
+];
 
 impl FaultSink {
     pub fn new_vectored(schedule: Schedule) -> FaultSink {
@@ -69,7 +86,7 @@ impl FaultSink {
         s
     }
     pub fn new(schedule: Schedule) -> FaultSink {
-        FaultSink { gather_vectored: false, vectored_calls: 0, schedule, accepted: vec![], events: vec![], calls: 0, fault_hit: false, flushes: 0, limit: usize::MAX }
+        FaultSink { gather_vectored: false, vectored_calls: 0, schedule, accepted: vec![], events: vec![], calls: 0, fault_hit: false, flushes: 0, limit: usize::MAX, fail_kind: io::ErrorKind::Other }
     }
     pub fn nonretryable_failures(&self) -> usize {
         self.events.iter().filter(|e| e.outcome == Outcome::Failed).count()
@@ -165,7 +182,7 @@ impl Write for FaultSink {
         match outcome {
             Some(Outcome::Failed) => {
                 self.events.push(Event { index: i, offered: buf.len(), outcome: Outcome::Failed, pos });
-                Err(io::Error::new(io::ErrorKind::Other, "injected sink failure"))
+                Err(io::Error::new(self.fail_kind, "injected sink failure"))
             }
             Some(Outcome::Interrupted) => {
                 self.events.push(Event { index: i, offered: buf.len(), outcome: Outcome::Interrupted, pos });
